@@ -88,6 +88,12 @@ CheckCase(c) ==
                              ELSE CheckAgainst(id, "correlate", c.res, Correlate(c.a, c.b), RMul(Scale(c.a), Scale(c.b)))
     [] c.ev = "reweight"  -> IF ReweightRejects(c.w, c.o) THEN Verdict(id, "reweight-must-raise", c.res.k = "exc")
                              ELSE CheckAgainst(id, "reweight", c.res, Reweight(c.w, c.o, c.all), RAdd(Scale(c.o), RDiv(Scale(c.o), RAbs(c.w.value))))
+    [] c.ev = "projection" -> \* indicator of the sector `target` on every configuration of the charge (sample = replica mean + fluctuation)
+                             CheckAgainst(id, "projection", c.res,
+                                          Construct([k \in DOMAIN c.q.chains |-> [name |-> c.q.chains[k].name, idl |-> c.q.chains[k].idl,
+                                                     x |-> LET xs == SamplesOf(c.q.chains[k]) IN
+                                                           [j \in DOMAIN xs |-> IF RFloor(RAdd(xs[j], "1/2")) = c.target THEN "1" ELSE "0"]]]), "1")
+    [] c.ev = "frame"     -> Verdict(id, c.what, c.before = c.after)
     [] c.ev = "inherit"   -> \* everything derived from a reweighted observable is flagged reweighted
                              Verdict(id, "reweighted-not-inherited", c.res.k = "obs" /\ c.res.o.rew = c.expect)
     [] OTHER -> Verdict(id, "unknown-event", FALSE)
